@@ -82,7 +82,9 @@ let install register get getn geti getb =
       let n = int_of_nat n in
       Printf.sprintf "err=%s foff=%x n=%x data=%s" (xerr_s e) (if api = "read" then off + n else 0) n (hex_of_bytes d)
     | "writeto" ->
-      let ((d, e), newoff) = writeTo o s regular noff in
+      (* statsz: what STAT reports as the size (0 = the true size, k+1 = k) *)
+      let statsz = (try geti kv "statsz" with _ -> 0) in
+      let ((d, e), newoff) = if statsz = 0 then writeTo o s regular noff else writeToS o s regular (nat_of_int (statsz - 1)) noff in
       Printf.sprintf "err=%s foff=%x n=%x data=%s" (xerr_s e) (int_of_nat newoff) (List.length d) (hex_of_bytes d)
     | "writeat" | "write" ->
       let ((s', n), e) = writeAt o s noff data all in
@@ -94,7 +96,14 @@ let install register get getn geti getb =
       let remain = (match src with "opaque" -> None | _ -> Some nlen) in
       let use_conc = api = "readfromc" || readFrom_uses_conc o remain in
       let (((s', n), e), foff) =
-        if use_conc then readFromConc s (nat_of_int p) data noff all
+        if use_conc && api = "readfromc" then begin
+          (* the concurrency argument the harness passed: the client's maximum itself, 0, -1 or maximum+7 *)
+          let rec z_of_pos i = if i = 1 then XH else if i land 1 = 1 then XI (z_of_pos (i lsr 1)) else XO (z_of_pos (i lsr 1)) in
+          let z i = if i = 0 then Z0 else if i < 0 then Zneg (z_of_pos (-i)) else Zpos (z_of_pos i) in
+          let arg = (match (try get kv "rfc" with _ -> "0") with "1" -> 0 | "2" -> -1 | "3" -> conc + 7 | _ -> conc) in
+          readFromConcArg (z 1) (z arg) (nat_of_int conc) s (nat_of_int p) data noff all
+        end
+        else if use_conc then readFromConc s (nat_of_int p) data noff all
         else readFromSeq (nat_of_int (len + 2)) readfrom_fixed s (nat_of_int p) data noff O in
       let show_n = not (api = "readfromc" && failing) && not (api = "readfrom" && failing && cw) in
       let pre = failing && (api = "readfromc" || (api = "readfrom" && cw)) in
